@@ -153,10 +153,7 @@ def load_performance_midi(
             if isinstance(msg, mido.MetaMessage):
                 if msg.type == "set_tempo":
                     mpq = msg.tempo
-                    if (
-                        tempo_changes[-1][1] != mpq
-                    ):  # only add new tempo if it's different from the last one
-                        tempo_changes.append((ttick, mpq))
+                    tempo_changes.append((ttick, mpq))
                     time_conversion_factor = mpq / (ppq * 10**6)
                 elif msg.type == "time_signature":
                     time_signatures.append(
@@ -292,6 +289,11 @@ def load_performance_midi(
             )
 
             pps.append(pp)
+
+    # the tempo map of a MIDI file is shared by all tracks: put the tempo changes
+    # collected track by track in order of their position in the file
+    # (the sort is stable: the default tempo stays first, later tracks come later)
+    tempo_changes.sort(key=lambda tc: tc[0])
 
     # adjust timing of events based on tempo changes
     for pp in pps:
